@@ -21,6 +21,18 @@ CLAIMS = {
     technique="Lean 4 refinement proof (manager state vs reference map, induction over operation sequences) + differential correspondence + reference-map Spec oracle on implementation traces",
     note=NOTE_COMMON + " Rule identity: hash collisions between different ids are assumed away (a rule given under two ids may be kept once or twice, as the property allows). Validity of a parameter set is a key convention here; "
          "the validity checks are C12. Found and fixed with this check: D3 (append dropped active controllers/breakers, three families) and D4 (append of an invalid rule on a fresh resource panicked and poisoned the map) — fix: commits c3fcc96, 6426e15, 49e63f6; witnesses in corpus/C10."),
+ "C11": dict(
+    category="proof",
+    text=("loadFlow_same_rules / loadHs_same_rules / loadBr_same_rules: for every state and every rule list that is, parameter for parameter (ids and order aside), the multiset of "
+          "rules bound to a resource's current controllers, the controllers after the reload are a permutation of the controllers before — the same objects with their windows, throttling "
+          "schedule, warm-up tokens, hotspot buckets/in-flight counters, breaker state, retry deadline and counters (generic: rebuild_equal_perm, by induction over the rule list). "
+          "rebuild_head_reused: an unchanged rule keeps the first equal controller; rebuild_head_changed: a rule equal to no current one gets a controller built from the new rule at once "
+          "(fresh, or on the statistics of a stat-reusable old one); rebuild_length; loadFlow_frame (other resources and families untouched). Model tied to build_resource_* / load_rules* of "
+          "flow, hotspot and circuitbreaker rule managers by differential execution; the transparency Spec runs a shadow world that never reloads and demands the same verdicts/waits/"
+          "breaker transitions from the implementation after reloads of equal rule sets, and the new parameters' behaviour after changed ones."),
+    design_ref="DESIGN.md §6 C11",
+    technique="Lean 4 proof (controller reuse as a permutation invariant) + differential correspondence + shadow-world transparency Spec on implementation traces",
+    note=NOTE_COMMON + " Rule sets are HashSets hashed with the id: the order in which rules are processed is taken from the implementation's observations, and a rule given under two ids may be held once or twice."),
  "C08": dict(
     category="translation_validation",
     text=("PARTIAL. Proved in Lean: structural theorems about the executable warm-up calculator for every state/threshold/clock (sync_stored_le_max, sync_once_per_second, sync_idempotent, "
